@@ -247,6 +247,15 @@ fn tables(out: &str) {
     writeln!(w, "{}", svgbob::verif::catalogue_tables_json()).unwrap();
 }
 
+/// the Unicode glyph table (character -> fragments) as JSON lines
+fn glyphs(out: &str) {
+    let mut w = File::create(out).expect("bobdrive: cannot create output");
+    for (ch, frags) in svgbob::map::UNICODE_FRAGMENTS.iter() {
+        let items: Vec<String> = frags.iter().map(svgbob::verif::json_fragment).collect();
+        writeln!(w, "{{\"ch\":{},\"frags\":[{}]}}", *ch as u32, items.join(",")).unwrap();
+    }
+}
+
 fn main() {
     let args: Vec<String> = std::env::args().collect();
     match args.get(1).map(|s| s.as_str()) {
@@ -258,6 +267,7 @@ fn main() {
             args.get(5).map(|s| s == "same").unwrap_or(false),
         ),
         Some("tables") if args.len() == 3 => tables(&args[2]),
+        Some("glyphs") if args.len() == 3 => glyphs(&args[2]),
         _ => {
             eprintln!("usage: bobdrive batch <in> <out> | threads <n> <in> <out> | tables <out>");
             std::process::exit(2);
